@@ -76,9 +76,14 @@ theorem fromAffine_valid {x y : Nat} (h : Valid (dec x y)) :
 
 /-! ## 4. `IsOnCurve`, `Add`, `Double` -/
 
-/-- `Curve.IsOnCurve(x, y)` is the spec's curve test, for all inputs -/
-theorem isOnCurve_iff (x y : Nat) : isOnCurve x y = true ↔ onCurve x y = true := by
+/-- `Curve.IsOnCurve(x, y)` (as repaired) accepts exactly the pairs of field elements that satisfy the spec's curve
+    equation; in particular, among coordinate pairs in [0, p) it is the spec's curve test -/
+theorem isOnCurve_iff (x y : Nat) : isOnCurve x y = true ↔ x < p ∧ y < p ∧ onCurve x y = true := by
   rw [isOnCurve_eq]
+  simp [Bool.and_eq_true, and_assoc]
+
+theorem isOnCurve_reduced (x y : Nat) (hx : x < p) (hy : y < p) : isOnCurve x y = onCurve x y := by
+  rw [isOnCurve_eq]; simp [hx, hy]
 
 /-- `Curve.Add`: every pair of valid inputs (on the curve with reduced coordinates, or (0,0)): the result
     is the encoding of the spec's `padd` — equal, opposite and infinite inputs included -/
